@@ -198,3 +198,61 @@ def run_with_failure(repo, kinds, extra, fail_layer):
     if fail_layer is not None:
         kw['__fail_layer__'] = fail_layer
     return SR.run_solver(repo, kinds, ('tidal',), True, extra_kwargs=kw)
+
+
+def interface_arguments(chk, repo, rule, where='TidalPy/RadialSolver/solver.pyx'):
+    """what the driver actually hands to the two interface functions at every interface of a run (recorded during the whole-function symbolic execution; slice values are
+    distinct symbols): upward -- the gravity is the mean of the two slices adjacent to the interface and the liquid density is that of the static liquid's boundary slice;
+    downward -- (gravity, density) of this layer's top slice and of the bottom slice of the layer above, with the kinds / static flags of those two layers."""
+    d = X.Decider(seed=chk.seed + 85, k=2)
+    seqs = [('solid', 'liquid-static', 'solid'), ('liquid', 'liquid-static', 'liquid'), ('liquid-static', 'solid', 'liquid'), ('solid-static', 'liquid', 'liquid-static'), ('liquid-static', 'liquid-static', 'solid')]
+    for kinds in seqs:
+        r = SR.run_solver(repo, kinds, ('tidal',), False)
+        ns = r.ns; grav = r.inputs['gravity']; dens = r.inputs['density']
+        lab = ' / '.join(kinds)
+        ups = [b for (nm, b) in r.iface_calls if nm == 'cf_solve_upper_y_at_interface']
+        dns = [b for (nm, b) in r.iface_calls if nm == 'cf_top_to_bottom_interface_bc']
+        bad = []
+        if len(ups) != len(kinds) - 1 or len(dns) != len(kinds) - 1:
+            bad.append(f'{len(ups)} upward and {len(dns)} downward interface calls for {len(kinds) - 1} interfaces')
+        for i, b in enumerate(ups):
+            s_lo, s_up = (i + 1) * ns - 1, (i + 1) * ns
+            lo, up = kinds[i], kinds[i + 1]
+            g = b.get('interface_gravity')
+            if not isinstance(g, X.Node) or not d.equal(g, (grav[s_lo] + grav[s_up]) / 2):
+                bad.append(f'upward, interface {i}: gravity is not the mean of the adjacent slices')
+            want_rho = dens[s_up] if is_static_liquid(up) else (dens[s_lo] if is_static_liquid(lo) else None)
+            rho = b.get('liquid_density')
+            if want_rho is not None and (not isinstance(rho, X.Node) or not d.equal(rho, want_rho)):
+                bad.append(f'upward, interface {i}: liquid density is not that of the static liquid at the interface')
+            kt = (b.get('lower_layer_type'), bool(b.get('lower_is_static')), b.get('upper_layer_type'), bool(b.get('upper_is_static')))
+            if kt != (SR.KIND[lo][0], SR.KIND[lo][1], SR.KIND[up][0], SR.KIND[up][1]):
+                bad.append(f'upward, interface {i}: layer kinds / static flags {kt} are not those of the two layers')
+        # downward calls come top-down: the first one treats the second layer from the top
+        for j, b in enumerate(dns):
+            li = len(kinds) - 2 - j                       # this layer; the layer above is li + 1
+            s_top, s_above = (li + 1) * ns - 1, (li + 1) * ns
+            checks = (('gravity_upper', grav[s_top]), ('layer_above_lower_gravity', grav[s_above]), ('density_upper', dens[s_top]), ('layer_above_lower_density', dens[s_above]))
+            for pn, want in checks:
+                v = b.get(pn)
+                if not isinstance(v, X.Node) or not d.equal(v, want):
+                    bad.append(f'downward, layer {li}: {pn} is not the value at the interface slice')
+            kt = (b.get('layer_type'), bool(b.get('layer_is_static')), b.get('layer_above_type'), bool(b.get('layer_above_is_static')))
+            if kt != (SR.KIND[kinds[li]][0], SR.KIND[kinds[li]][1], SR.KIND[kinds[li + 1]][0], SR.KIND[kinds[li + 1]][1]):
+                bad.append(f'downward, layer {li}: layer kinds / static flags {kt} are not those of this layer and the layer above')
+        chk.ob(rule, f'layers {lab}: arguments the driver hands to the interface functions at every interface (gravity, liquid density, kinds) are those of that interface, in both directions', not bad,
+               '; '.join(bad[:4]), where, key=f'{rule}|{lab}', method='recorded call arguments of the whole-function symbolic execution + GF(p^2) PIT')
+
+
+def guarded(chk, pid, thunk):
+    """run a whole-driver analysis; if it cannot be completed on a tree for which other rules of the same check already report unlisted violations, those are the
+    verdict (exit 1 with their report); otherwise the analysis error stands (fail closed)"""
+    from ..core.report import load_known, norm_key
+    try:
+        thunk()
+    except AnalysisError as ex:
+        known = {norm_key(e_['key']) for e_ in load_known() if e_.get('property') == pid and e_.get('status') == 'known'}
+        if any((not o.ok) and o.key not in known for o in chk.obls):
+            chk.note_analysed('whole-driver symbolic execution', f'not completed on this tree ({str(ex)[:160]}); other rules report the violations')
+        else:
+            raise
